@@ -74,6 +74,9 @@ JudgeS(r) ==
             viol == RepViolation(r.final)
         IN IF multi # {} THEN LET x == CHOOSE y \in multi : TRUE IN
                 << <<"BAD", "sched", "single-step-call-is-not-one-critical-section", r.prog[x[1]][x[2]].op, IF r.gates[x[1]][x[2]] = 0 THEN "no-guard" ELSE "several-guards">> >>
+           ELSE IF \E x \in ids : r.prog[x[1]][x[2]].op \in WriteOps /\ r.gates[x[1]][x[2]] = 1 /\ r.kinds[x[1]][x[2]] # <<"W">> THEN
+                LET x == CHOOSE y \in ids : r.prog[y[1]][y[2]].op \in WriteOps /\ r.gates[y[1]][y[2]] = 1 /\ r.kinds[y[1]][y[2]] # <<"W">> IN
+                << <<"BAD", "sched", "mutator-not-under-the-exclusive-guard", r.prog[x[1]][x[2]].op>> >>      \* a shared guard does not exclude readers: not atomic
            ELSE IF viol # "-" THEN << <<"BAD", "sched", "quiescent-state-illformed", viol>> >>
            ELSE IF r.judge = "wf" THEN << <<"ok", "sched-composite", OpsTag(r.prog), "nt">> >>      \* C03: several-guard calls are not claimed atomic
            ELSE LET W == Walk0(r)  final == AbsOf(r.final) IN
